@@ -2,9 +2,8 @@
 import math
 import types
 from fractions import Fraction as F
-from pathlib import Path
 
-from lib import configs, fastlit, flatcorr, framework as fw, qconv, runner, snapshot
+from lib import configs, fastlit, flatcorr, framework as fw, runner, snapshot
 from gen import energy_enums
 
 TOL = F(1, 10 ** 9)
@@ -490,6 +489,16 @@ def _opts(rnd, **kw):
     return dict(addons=False, overpressure=rnd.random() < 0.15, **kw)
 
 
+def _synthetic(rnd, life, tspy, **kw):
+    """configs.synthetic; a one-sample series (lifetime 1, 1 step/year) crashes in WellBores.RameyCalc (framey[1]), which is
+    not C02's business, so those configurations use the constant wellbore temperature drop"""
+    cfg = configs.synthetic(rnd, life=life, tspy=tspy, **kw)
+    if life * tspy == 1:
+        cfg = [(k, v) for k, v in cfg if k not in ('Ramey Production Wellbore Model', 'Production Wellbore Temperature Drop')]
+        cfg += [('Ramey Production Wellbore Model', 0), ('Production Wellbore Temperature Drop', 2)]
+    return runner.params_to_text(cfg)
+
+
 def gen_runs(ctx):
     rnd = ctx.rng
     runs = [('corpus:' + p.name, p.read_text()) for p in sorted(CORPUS.glob('*.txt'))]
@@ -508,13 +517,13 @@ def gen_runs(ctx):
             resm = rnd.choice([3, 4, 4] if ctx.quick or rep % 4 else [1, 2])
             opts = dict(addons=False, overpressure=False) if dh else _opts(rnd)
             runs.append((f'cell:eu{eu}:plant{pl}:{rep}:{len(runs)}',
-                         runner.params_to_text(configs.synthetic(rnd, enduse=eu, plant=pl, life=life, tspy=tspy, resmodel=resm, **opts))))
+                         _synthetic(rnd, life, tspy, enduse=eu, plant=pl, resmodel=resm, **opts)))
     for i in range(ctx.n(12, 150)):     # long series, add-ons
         eu = rnd.choice(configs.ENDUSES)
         pl = rnd.choice(configs.ELEC_PLANTS if eu != 2 else [5, 6, 9])
-        runs.append((f'long:{i}', runner.params_to_text(configs.synthetic(
-            rnd, enduse=eu, plant=pl, life=rnd.choice([10, 20, 30, 35] + ([] if ctx.quick else [60, 100])),
-            tspy=rnd.choice([1, 2, 4, 6, 12]), resmodel=rnd.choice([3, 4]), addons=i % 3 == 0, overpressure=False))))
+        runs.append((f'long:{i}', _synthetic(rnd, rnd.choice([10, 20, 30, 35] + ([] if ctx.quick else [60, 100])),
+                                             rnd.choice([1, 2, 4, 6, 12]), enduse=eu, plant=pl, resmodel=rnd.choice([3, 4]),
+                                             addons=i % 3 == 0, overpressure=False)))
     return runs
 
 
@@ -533,8 +542,8 @@ def search(ctx):
     for eu in configs.ENDUSES:
         for pl in (configs.ELEC_PLANTS if eu != 2 else [5, 6, 9]):
             for life, tspy in ((1, 1), (2, 1), (3, 4)):
-                runs.append((f'search:eu{eu}:plant{pl}:life{life}:k{tspy}', runner.params_to_text(
-                    configs.synthetic(rnd, enduse=eu, plant=pl, life=life, tspy=tspy, resmodel=4, addons=False, overpressure=False))))
+                runs.append((f'search:eu{eu}:plant{pl}:life{life}:k{tspy}',
+                             _synthetic(rnd, life, tspy, enduse=eu, plant=pl, resmodel=4, addons=False, overpressure=False)))
     check_runs(ctx, 'search-runs', runs)
 
 
